@@ -32,6 +32,7 @@ PROP = "C18"
 
 TAGB = A.TAG.encode()
 WALL = {"lo": 1695700000.25, "mid": 1695700001.5000001, "hi": 1695700050.125}  # disjoint from the default readings
+WALL_ORDER = ["lo", "mid", "hi"]
 WALL0, WALL_STEP = 1695712345.678901, 1.000001
 PERF0 = 12345.000123
 REPS = {
@@ -293,6 +294,10 @@ def _simpler(case):
             j = sum(1 for kk, _ in items[:i] if kk != "n")
             c["wall"] = case["wall"][:j] + case["wall"][j + 1:] or None
         yield c
+    if case["wall"]:
+        for i, w in enumerate(case["wall"]):
+            for m in WALL_ORDER[:WALL_ORDER.index(w)]:
+                yield dict(case, wall=case["wall"][:i] + [m] + case["wall"][i + 1:])
     # canonicalise: replace an item by an earlier one of its alphabet (kept only if the clause persists)
     payloads, noises = list(A.PAYLOADS), list(A.NOISE)
     for i, (k, n) in enumerate(items):
@@ -481,6 +486,14 @@ def build_tasks(tier):
     return T
 
 
+def _rank(key):
+    """Report order: channel corruption first, then counter/time stamps, reporting-side failures, rejections."""
+    for i, pre in enumerate(("retrieve", "st:", "report", "reject:partial", "reject:", "stdout:")):
+        if key.startswith(pre):
+            return i
+    return 9
+
+
 def run(tier, seed):
     res = Result()
     # the payload alphabet must be pairwise distinct on the wire, otherwise "distinct" cases would be over-counted
@@ -496,7 +509,7 @@ def run(tier, seed):
         res.cov.merge(cov)
         for v in viols:
             by_key.setdefault(v.key, v)
-    res.violations = [by_key[k] for k in sorted(by_key)]
+    res.violations = [by_key[k] for k in sorted(by_key, key=lambda k: (_rank(k), k))]
     fam = {k[6:]: v for k, v in res.cov.extra.items() if k.startswith("cases_")}
     res.bounds = {"tier": tier, "tasks": len(T), "payload_alphabet": len(A.PAYLOADS),
                   "reject_alphabet": len(A.REJECTS), "either_alphabet": len(A.EITHER),
